@@ -41,15 +41,17 @@ func symbolicFlags(f uint32) seccomp.FilterFlag {
 // ---------------------------------------------------------------- C10
 
 type tsyncScript struct {
-	Phases      []string `json:"phases"` // spin | sleep | read | futex | spawn
-	Flags       uint32   `json:"flags"`
-	LoaderMain  bool     `json:"loader_main"`
-	NNP         bool     `json:"nnp"`
-	Preload     bool     `json:"preload"`      // the loader first loads the same policy without thread-sync
-	Divergent   bool     `json:"divergent"`    // the first phase thread installs a private filter (policy B) before the load
-	PriorSync   bool     `json:"prior_sync"`   // the loader first loads another policy (B) WITH thread-sync: every thread then has one filter; the load under test follows
-	Uname26     bool     `json:"uname26"`      // the child runs under the UNAME26 personality: uname(2) reports release 2.6.x
-	OuterENOSYS bool     `json:"outer_enosys"` // the whole process already runs under a filter that answers ENOSYS to seccomp(2) (as if the kernel lacked it)
+	Phases       []string `json:"phases"` // spin | sleep | read | futex | spawn
+	Flags        uint32   `json:"flags"`
+	LoaderMain   bool     `json:"loader_main"`
+	NNP          bool     `json:"nnp"`
+	Preload      bool     `json:"preload"`        // the loader first loads the same policy without thread-sync
+	Divergent    bool     `json:"divergent"`      // the first phase thread installs a private filter (policy B) before the load
+	PriorSync    bool     `json:"prior_sync"`     // the loader first loads another policy (B) WITH thread-sync: every thread then has one filter; the load under test follows
+	Uname26      bool     `json:"uname26"`        // the child runs under the UNAME26 personality: uname(2) reports release 2.6.x
+	Unpriv       bool     `json:"unprivileged"`   // the child runs as uid 65534: without no_new_privs the kernel refuses (EACCES), and a nil result is only acceptable if every thread is covered
+	OuterDenyAux bool     `json:"outer_deny_aux"` // the process runs under a filter that answers EPERM to every seccomp(2) operation other than SET_MODE_STRICT / SET_MODE_FILTER (support probes such as GET_ACTION_AVAIL fail, loads work)
+	OuterENOSYS  bool     `json:"outer_enosys"`   // the whole process already runs under a filter that answers ENOSYS to seccomp(2) (as if the kernel lacked it)
 }
 
 type tsyncThread struct {
@@ -194,6 +196,15 @@ func childTSync(args []string) {
 		}()
 	}
 	started.Wait()
+	if sc.OuterDenyAux {
+		// ld nr; jeq seccomp ? : allow; ld args[0]; jgt 1 -> ret ERRNO|EPERM; ret ALLOW
+		outer := rawProg{{0x20, 0, 0, 0}, {0x15, 0, 3, 317}, {0x20, 0, 0, 16}, {0x25, 0, 1, 1}, {0x06, 0, 0, 0x00050001}, {0x06, 0, 0, 0x7fff0000}}
+		syscall.RawSyscall(syscall.SYS_PRCTL, prSetNoNewPrivs, 1, 0)
+		if e := rawSeccompLoad(outer, len(outer), 1); e != 0 {
+			s := "outer filter could not be installed: " + e.Error()
+			rep.Err = &s
+		}
+	}
 	if sc.OuterENOSYS {
 		// ld nr; jeq 317 (seccomp) -> ret ERRNO|ENOSYS; ret ALLOW   -- installed on every thread through the raw syscall
 		outer := rawProg{{0x20, 0, 0, 0}, {0x15, 0, 1, 317}, {0x06, 0, 0, 0x00050026}, {0x06, 0, 0, 0x7fff0000}}
